@@ -88,7 +88,7 @@ func petBody(r *simfw.RNG, m string, valid bool) string {
 func genOp(r *simfw.RNG, m string) Op {
 	rt := simfw.Pick(r, []string{"gorilla", "gorilla", "legacy"})
 	ver := simfw.Pick(r, []string{"/v1", "/v1", "/v2"})
-	switch r.Intn(17) {
+	switch r.Intn(18) {
 	case 0, 1:
 		return Op{Kind: "find", Router: rt, Method: simfw.Pick(r, []string{"GET", "PUT", "POST", "DELETE"}),
 			Path: simfw.Pick(r, []string{ver + "/pets/7", ver + "/pets/abc", ver + "/form", "/v3/pets/1", "/nope/" + m, ver + "/text", ver + "/upload"})}
@@ -103,6 +103,13 @@ func genOp(r *simfw.RNG, m string) Op {
 		o := Op{Kind: "vreq", Router: rt, Method: "GET", Path: ver + "/pets/" + simfw.Pick(r, []string{"1", "42", "0", "abc"}), Query: q.Encode(), Multi: r.Chance(1, 3), SkipDefaults: r.Chance(1, 4)}
 		if r.Bool() {
 			o.Headers = append(o.Headers, [2]string{"X-Trace", simfw.Pick(r, []string{"2021-03-04", "2021-13-40"})})
+		}
+		if r.Chance(1, 3) {
+			o.Headers = append(o.Headers, [2]string{"X-Tenant", simfw.Pick(r, []string{"acme", "much-too-long-tenant"})})
+		}
+		if r.Chance(1, 3) {
+			q.Set("fields", simfw.Pick(r, []string{"name,born", "NAME"}))
+			o.Query = q.Encode()
 		}
 		if r.Bool() {
 			o.Cookies = append(o.Cookies, [2]string{"sess", simfw.Pick(r, []string{"abc" + m, "abc" + m + "c", "BAD!"})})
@@ -171,6 +178,10 @@ func genOp(r *simfw.RNG, m string) Op {
 			sc = simenv.Script{}
 		}
 		return Op{Kind: "mw", Method: "GET", Path: ver + "/pets/" + simfw.Pick(r, []string{"5", "0", "x"}), Strict: r.Bool(), Script: sc}
+	case 16:
+		// CSV uploads: well-formed, schema-violating, and malformed after a good record
+		body := simfw.Pick(r, []string{"id,name\n1,rex" + m + "\n", "id,name\n1,rex\n2,tom\n", "id,name\n1,rex\n2,\"unterminated\n", "id,name\n7,UPPER\n", "id,name\n1,a\n2,b\n3,c\n4,d\n"})
+		return Op{Kind: "vreq", Router: rt, Method: "POST", Path: ver + "/csv", CT: "text/csv", Body: body}
 	case 15:
 		if r.Bool() {
 			return Op{Kind: "load", Path: simfw.Pick(r, []string{"main.yaml", "main.yaml", "other.yaml", "missing.yaml"})}
